@@ -2,6 +2,9 @@ import AcraModel.KeystoreSec.PathLemmas
 import AcraModel.Generated.KeystoreSec
 import AcraModel.KeystoreSec.WriteLog
 import AcraModel.Crypto.Box
+import AcraModel.KeystoreSec.V1WriteLog
+import AcraModel.KeystoreSec.V1NamesLemmas
+import AcraModel.Generated.V1Export
 /-!
 # C07 — keys at rest are encrypted, bound to their owner, tamper-evident and confined
 
@@ -250,6 +253,162 @@ theorem ring_signature_needed (c : CryptoOps) (key ctx raw : Bytes) (sigs : List
       exact ⟨s, this.1, this.2⟩
   · intro s hs ho
     exact h.2 s hs ho
+
+
+/-! # The v1 key store write path (`WritePrivateKey` / `WriteKeyFile`)
+
+Model `KeystoreSec/V1WriteLog.lean`; tied by the op `C07.v1.write` (every byte string the real key
+store hands to `Storage.WriteFile` is recomputed by the model) and `C07.v1.load`. -/
+section V1
+open AcraModel.KeystoreSec.V1 AcraModel.KeystoreSec.V1WriteLog
+open AcraModel.CrossClient (KeyContext keyContextBytes keyEncrypt keyDecrypt)
+
+
+open Generated.V1Export in
+/-- Every per-client writer of the v1 key store starts by refusing ids `keystore.ValidateID` rejects
+(repair 50 for three of them), and `ValidateID` is the length window 5…256 plus the byte classes
+`a-z A-Z 0-9` and `ValidChars = "_- "` that `V1.validateID` models. -/
+theorem fact_v1_writers_validate :
+    v1WriterGenerateDataEncryptionKeysFirst = "if !keystore.ValidateID(id) { return keystore.ErrInvalidClientID }" ∧
+    v1WriterSaveDataEncryptionKeysFirst = "if !keystore.ValidateID(id) { return keystore.ErrInvalidClientID }" ∧
+    v1WriterGenerateClientIDSymmetricKeyFirst = "if !keystore.ValidateID(id) { return keystore.ErrInvalidClientID }" ∧
+    v1WriterGenerateHmacKeyFirst = "if !keystore.ValidateID(id) { return keystore.ErrInvalidClientID }" ∧
+    validateIDBody = ["if len(clientID) < MinClientIDLength || len(clientID) > MaxClientIDLength { return false }", "for _, c := range string(clientID) { if (c < 'a' || c > 'z') && (c < 'A' || c > 'Z') && (c < '0' || c > '9') && !strings.ContainsRune(ValidChars, c) { return false } }", "return true"] ∧
+    cValidChars = "_- " ∧ minClientIDLength = cMinClientIDLength ∧ maxClientIDLength = cMaxClientIDLength ∧
+    (cValidChars.toList.map fun ch => validChar (UInt8.ofNat ch.toNat)) = [true, true, true] := by
+  refine ⟨by rfl, by rfl, by rfl, by rfl, by rfl, by rfl, by rfl, by rfl, by decide⟩
+
+/-- **Every v1 write is sealed.** Whatever key-producing operation the v1 key store performs
+(storage key pair generated or saved, storage symmetric key, HMAC key, audit-log key, poison key
+pair, poison symmetric key – first time or rotation), its write log consists of exactly one private
+write, to the operation's file, of `enc master (bytes of the operation's key context) secret nonce`,
+followed – for key pairs – by one public write of the public key to `<file>.pub`. The secret never
+reaches `Storage.WriteFile` otherwise; with the length law the private write is not the secret. -/
+theorem v1_writes_are_sealed (c : CryptoOps) (master nonce : Bytes) (op : Op) (ws : List Write)
+    (h : writes c master nonce op = some ws) :
+    ∃ ct, c.enc master (keyContextBytes op.ctx) op.secret nonce = some ct ∧
+      ws = ⟨op.file, ct, true⟩ :: (match op.public with | some pub => [⟨op.file ++ sPub, pub, false⟩] | none => []) ∧
+      (∀ w ∈ ws, w.priv = true → w.data = ct) ∧
+      (SealLen c → ct ≠ op.secret) := by
+  unfold writes at h
+  split at h
+  · cases h
+  · cases he : keyEncrypt c master op.ctx op.secret nonce with
+    | none => simp [he] at h
+    | some ct =>
+      simp only [he, Option.map_some, Option.some.injEq] at h
+      subst h
+      refine ⟨ct, he, rfl, ?_, fun hlen => sealed_ne_secret c hlen _ _ _ _ _ he⟩
+      intro w hw hp
+      simp only [List.mem_cons] at hw
+      rcases hw with rfl | hw
+      · rfl
+      · cases hpub : op.public with
+        | none => simp [hpub] at hw
+        | some pub =>
+          simp only [hpub, List.mem_cons, List.not_mem_nil, or_false] at hw
+          subst hw
+          cases hp
+
+/-- **Bound to the owner (v1).** The private write of an operation opens only under the master key
+and the context bytes it was sealed with: loading it the way a getter for any other key context does
+– another client id, the poison or audit-log context, another master key – fails. -/
+theorem v1_bound_to_owner (c : CryptoOps) (hl : SealLaws c) (hc : SealCommit c) (master nonce : Bytes) (op : Op)
+    (ws : List Write) (h : writes c master nonce op = some ws) (w : Write) (hw : w ∈ ws) (hp : w.priv = true)
+    (master' : Bytes) (kc' : KeyContext) (hne : master' ≠ master ∨ keyContextBytes kc' ≠ keyContextBytes op.ctx) :
+    load c master' kc' w.data = none := by
+  obtain ⟨ct, he, _, hall, _⟩ := v1_writes_are_sealed c master nonce op ws h
+  rw [hall w hw hp]
+  exact bound_to_owner c hl hc _ _ _ _ _ master' (keyContextBytes kc') he hne
+
+/-- the context of a per-client operation is the client id: two different owners never share one -/
+theorem v1_client_context (op : Op) (id : Bytes) (h : op.clientId = some id) : keyContextBytes op.ctx = id := by
+  cases op <;> simp [Op.clientId] at h <;> subst h <;> rfl
+
+/-- the contexts of the key store's own keys (poison pair, poison symmetric, audit log) are fixed
+strings no valid client id equals (they contain `.` or are the log key name – `secure_log_key` *is* a
+valid client id: a client of that name shares the audit-log key's context) -/
+theorem v1_global_contexts (id : Bytes) (hv : validateID id = true) :
+    id ≠ keyContextBytes (Op.ctx (.genPoisonPair [] [])) ∧ id ≠ keyContextBytes (Op.ctx (.genPoisonSym [])) := by
+  constructor <;> (intro e; have := validateID_chars hv 46 (by rw [e]; decide); revert this; decide)
+
+/-- **The purpose is not bound (known finding `v1-purpose-not-bound`).** Storage symmetric key and
+HMAC key of one client are sealed under the same context – the client id: the file of one loads as
+the other. -/
+theorem v1_purpose_not_bound_counterexample (c : CryptoOps) (hl : SealLaws c) (master nonce id key : Bytes) (ws : List Write)
+    (h : writes c master nonce (.genHmacKey id key) = some ws) :
+    ∃ w ∈ ws, load c master (Op.ctx (.genSymKey id [])) w.data = some key := by
+  obtain ⟨ct, he, hws, _, _⟩ := v1_writes_are_sealed c master nonce _ ws h
+  refine ⟨⟨hmacName id, ct, true⟩, by rw [hws]; simp [Op.file], ?_⟩
+  exact hl.dec_enc _ _ _ _ _ he
+
+/-- **Confinement of the v1 writers.** Every path in the write log of every operation consists of
+ordinary components only (no `..`, no `.`, no empty component, no separator inside a component):
+relative to the key folder it stays inside it, lexically. Per-client operations get there because
+they refuse every client id `keystore.ValidateID` does not accept (letters, digits, `_`, `-`, space;
+5 … 256 bytes); the key store's own names are `secure_log_key` and `.poison_key/poison_key[_sym|.pub]`. -/
+theorem v1_paths_contained (c : CryptoOps) (master nonce : Bytes) (op : Op) (ws : List Write)
+    (h : writes c master nonce op = some ws) :
+    ∀ w ∈ ws, ∀ comp ∈ Path.splitSlash w.path, GoodComp comp := by
+  have hrej : op.rejected = false := by
+    unfold writes at h
+    cases hr : op.rejected with
+    | false => rfl
+    | true => simp [hr] at h
+  obtain ⟨ct, _, hws, _, _⟩ := v1_writes_are_sealed c master nonce op ws h
+  -- the file of the operation and, for pairs, `<file>.pub`
+  have hfile : (∀ comp ∈ Path.splitSlash op.file, GoodComp comp) ∧ (∀ comp ∈ Path.splitSlash (op.file ++ sPub), GoodComp comp) := by
+    cases hid : op.clientId with
+    | some id =>
+      have hv : validateID id = true := by
+        simp only [Op.rejected, hid, Bool.not_eq_false'] at hrej
+        exact hrej
+      have hgood : ∀ suf : Bytes, Path.slash ∉ suf → ∀ comp ∈ Path.splitSlash (id ++ suf), GoodComp comp := by
+        intro suf hs comp hc
+        have hg := goodComp_valid_append hv suf hs
+        rw [splitSlash_noslash_eq _ hg.2.2.2] at hc
+        simp only [List.mem_cons, List.not_mem_nil, or_false] at hc
+        rw [hc]; exact hg
+      cases op <;> simp only [Op.clientId, Option.some.injEq, reduceCtorEq] at hid <;> subst hid
+      all_goals
+        simp only [Op.file, storageName, symName, hmacName, List.append_assoc]
+        exact ⟨hgood _ (by decide), hgood _ (by decide)⟩
+    | none =>
+      cases op <;> simp only [Op.clientId, reduceCtorEq] at hid
+      all_goals
+        simp only [Op.file]
+        have hg := global_names_good
+        simp only [List.all_cons, List.all_nil, Bool.and_true, Bool.and_eq_true] at hg
+        first
+          | exact ⟨splitSlash_all_good hg.1, splitSlash_all_good hg.2.1⟩
+          | exact ⟨splitSlash_all_good hg.2.2.1, splitSlash_all_good hg.2.2.2.1⟩
+          | exact ⟨splitSlash_all_good hg.2.2.2.2.1, splitSlash_all_good hg.2.2.2.2.2⟩
+  intro w hw
+  rw [hws] at hw
+  simp only [List.mem_cons] at hw
+  rcases hw with rfl | hw
+  · exact hfile.1
+  · cases hpub : op.public with
+    | none => simp [hpub] at hw
+    | some pub =>
+      simp only [hpub, List.mem_cons, List.not_mem_nil, or_false] at hw
+      subst hw
+      exact hfile.2
+
+/-- **The pinned tree escaped (repair 50).** Before the repair only `GenerateDataEncryptionKeys`
+validated: `GenerateClientIDSymmetricKey("../escaped")` wrote to `../escaped_storage_sym`, a path
+whose first component is `..`. The repaired writer refuses the id. -/
+theorem v1_writer_pinned_counterexample :
+    (writesPinned boxOps [1] (List.replicate 12 0) (.genSymKey (Path.ofStr "../escaped") [7])).map (fun ws => ws.map (·.path)) =
+      some [Path.ofStr "../escaped_storage_sym"] ∧
+    Path.splitSlash (Path.ofStr "../escaped_storage_sym") = [Path.dd, Path.ofStr "escaped_storage_sym"] ∧
+    writes boxOps [1] (List.replicate 12 0) (.genSymKey (Path.ofStr "../escaped") [7]) = none := by
+  refine ⟨by decide, by decide, by decide⟩
+
+/-- non-vacuity: a valid client gets its files written under the Box instance -/
+example : (writes boxOps [1] (List.replicate 12 0) (.genDataKeys (Path.ofStr "client_a") [7] [8])).isSome = true := by decide
+
+end V1
 
 /-! ## non-vacuity -/
 
